@@ -172,7 +172,8 @@ Definition alert_consts : list Z :=
 
 (* ---- connection state ------------------------------------------------------------------ *)
 Inductive wire_event :=
-| WAlert (level descr : Z)          (* an alert record was handed to the socket *)
+| WAlert (level descr : Z)          (* an alert record: in `wire` it was handed to the real
+                                       socket, in `queued` it sits in BufferedSocket._write_queue *)
 | WShutdown (resumable_arg : bool). (* _shutdown(resumable_arg) ran (socket closed if closeSocket) *)
 
 Record cst := mkcst {
@@ -183,19 +184,41 @@ Record cst := mkcst {
   wire : list wire_event;       (* trace of alerts written and shutdowns, oldest first *)
   close_socket : bool;          (* config: self.closeSocket (default True) *)
   ignore_abrupt : bool;         (* config: self.ignoreAbruptClose (default False) *)
-  fault : option (list Z)       (* config: None = self.fault unset; Some l = Fault.faultAlerts[self.fault] *)
+  fault : option (list Z);      (* config: None = self.fault unset; Some l = Fault.faultAlerts[self.fault] *)
+  buffering : bool;             (* self.sock.buffer_writes (BufferedSocket): sends are queued *)
+  queued : list wire_event      (* alert records sitting in BufferedSocket._write_queue (other
+                                   queued handshake records are not represented) *)
 }.
 
+(* bufferedsocket.py send/sendall: queued while buffer_writes, else handed to the socket *)
 Definition emit (ev : wire_event) (st : cst) : cst :=
-  mkcst (closed st) (sock_closed st) (has_session st) (resumable st) (wire st ++ [ev])
-        (close_socket st) (ignore_abrupt st) (fault st).
+  mkcst (closed st) (sock_closed st) (has_session st) (resumable st)
+        (if buffering st then wire st else wire st ++ [ev])
+        (close_socket st) (ignore_abrupt st) (fault st) (buffering st)
+        (if buffering st then queued st ++ [ev] else queued st).
 
-(* tlsrecordlayer.py 931-940 *)
+(* bufferedsocket.py flush / flush_async: everything queued goes to the socket *)
+Definition flush (st : cst) : cst :=
+  mkcst (closed st) (sock_closed st) (has_session st) (resumable st) (wire st ++ queued st)
+        (close_socket st) (ignore_abrupt st) (fault st) (buffering st) [].
+
+Definition unbuffer (st : cst) : cst :=
+  mkcst (closed st) (sock_closed st) (has_session st) (resumable st) (wire st)
+        (close_socket st) (ignore_abrupt st) (fault st) false (queued st).
+
+(* tlsrecordlayer.py 938-947; sock.close() is BufferedSocket.close(): flush, then close.
+   Without closeSocket nothing is flushed: what is queued is never transmitted. *)
 Definition shutdown (r : bool) (st : cst) : cst :=
   mkcst true (sock_closed st || close_socket st) (has_session st)
         (if negb r && has_session st then false else resumable st)
-        (wire st ++ [WShutdown r])
-        (close_socket st) (ignore_abrupt st) (fault st).
+        ((if close_socket st then wire st ++ queued st else wire st) ++ [WShutdown r])
+        (close_socket st) (ignore_abrupt st) (fault st) (buffering st)
+        (if close_socket st then [] else queued st).
+
+(* tlsrecordlayer.py 951-956: flush_async(); buffer_writes = False; _sendMsg(alert): the
+   fatal alert is WRITTEN, after whatever was queued, whatever the buffering flag was *)
+Definition send_alert_now (d : Z) (st : cst) : cst :=
+  emit (WAlert level_fatal d) (unbuffer (flush st)).
 
 Record raised := mkr { rclass : exc_class; rdescr : option Z }.
 Inductive outcome := Done | Raised (r : raised).
@@ -205,7 +228,7 @@ Inductive outcome := Done | Raised (r : raised).
    _sendMsgThroughSocket line 1055-1059 re-raises). *)
 Definition sendError (d : Z) (sf : bool) (st : cst) : outcome * cst :=
   if sf then (Raised (mkr E_SockError None), st)
-  else (Raised (mkr E_TLSLocalAlert (Some d)), shutdown false (emit (WAlert level_fatal d) st)).
+  else (Raised (mkr E_TLSLocalAlert (Some d)), shutdown false (send_alert_now d st)).
 
 (* tlsrecordlayer.py 1387-1405 *)
 Definition record_alert (e : exc_class) : option Z :=
@@ -540,10 +563,10 @@ Fixpoint last_fatal (l : list wire_event) (acc : option Z) : option Z :=
 (* the state in which the harness puts the endpoint for each layer (defaults of tlslite) *)
 Definition init_state (ly : layer) : cst :=
   match ly with
-  | LHandshake => mkcst true false false false [] true false None
-  | LClose => mkcst false false true true [] false false None   (* closeSocket = False: the
+  | LHandshake => mkcst true false false false [] true false None false []
+  | LClose => mkcst false false true true [] false false None false []   (* closeSocket = False: the
                                               only setting in which closeAsync reads *)
-  | _ => mkcst false false true true [] true false None
+  | _ => mkcst false false true true [] true false None false []
   end.
 
 (* predict layer depth class = (final class code, last fatal alert written, closed, resumable)
@@ -558,9 +581,10 @@ Definition predict (lc dc ec : Z) : Z * option Z * bool * bool :=
 
 (* General comparison used by the correspondence check.
    input  : ((layer, depth), (action kind, a1, a2), sf,
-             (closed, sock_closed, has_session, resumable, close_socket, ignore_abrupt), fault)
+             (closed, sock_closed, has_session, resumable, close_socket, ignore_abrupt), fault,
+             buffering)
    observed: (final class code, raised .description, (closed, sock_closed, has_session, resumable),
-             trace) with trace entries (level, descr) for an alert written and (-1, 0/1) for a
+             trace, (final buffering flag, alerts still queued)) with trace entries (level, descr) for an alert written and (-1, 0/1) for a
              _shutdown(False/True) observed as sock.close() (so only when closeSocket is set;
              the argument is not observable and reported as 0).  resumable is compared only
              when a session exists. *)
@@ -590,19 +614,20 @@ Definition ev_code_obs (ev : wire_event) : Z * Z :=
   end.
 
 Definition fcase : Type :=
-  ((Z * Z) * (Z * Z * Z) * bool * (bool * bool * bool * bool * bool * bool) * option (list Z))
-  * (Z * option Z * (bool * bool * bool * bool) * list (Z * Z)).
+  ((Z * Z) * (Z * Z * Z) * bool * (bool * bool * bool * bool * bool * bool) * option (list Z)
+   * bool)
+  * (Z * option Z * (bool * bool * bool * bool) * list (Z * Z) * (bool * list (Z * Z))).
 
 Definition run_case (c : fcase) : option (outcome * cst) :=
-  let '((lc, dc), (k, a1, a2), sf, (cl, sc, hs, rs, cs, ia), fl, _) := c in
+  let '((lc, dc), (k, a1, a2), sf, (cl, sc, hs, rs, cs, ia), fl, bf, _) := c in
   match layer_of_code lc, depth_of_code dc, action_of_code k a1 a2 with
   | Some ly, Some dp, Some a =>
-      Some (funnel ly dp a sf (mkcst cl sc hs rs [] cs ia fl))
+      Some (funnel ly dp a sf (mkcst cl sc hs rs [] cs ia fl bf []))
   | _, _, _ => None
   end.
 
 Definition chk_funnel (c : fcase) : bool :=
-  let '(_, (ocode, odescr, (ocl, osc, ohs, ors), otrace)) := c in
+  let '(_, (ocode, odescr, (ocl, osc, ohs, ors), otrace, (obf, oqueued))) := c in
   match run_case c with
   | None => false
   | Some (o, st') =>
@@ -613,6 +638,8 @@ Definition chk_funnel (c : fcase) : bool :=
       && trace_eqb (map ev_code_obs
                       (filter (fun ev => negb (is_shutdown_ev ev) || close_socket st') (wire st')))
                    otrace
+      && Bool.eqb (buffering st') obf
+      && trace_eqb (map ev_code_obs (queued st')) oqueued
   end.
 
 (* hierarchy tie: (code a, code b, issubclass(a, b)) *)
